@@ -110,6 +110,8 @@ def c17(ctx, config="all"):
         n += 1
         v = prog.view(b, (65, 2))
         have = constructed(v)
+        for hk in ir.local_helpers(prog, k):
+            have += constructed(prog.view(hk, (65, 2)))     # checks moved into a private helper of the same file
         where = "%s:%s" % (b["file"], b["line"])
         for kind in kinds:
             if kind in have:
@@ -124,6 +126,14 @@ def c17(ctx, config="all"):
         v = prog.view(b, (65, 2))
         short = k.replace("crate::", "").replace("<BITS, LIMBS>", "")
         tgt = [bi for bi, t in v.calls() if (ir.callee_name(t["fn"]) or "").endswith("::try_from_be_slice")]
+        if not tgt:
+            # the check and the conversion may live together in a private helper of the same file
+            for hk in ir.local_helpers(prog, k):
+                hv = prog.view(hk, (65, 2))
+                ht = [bi for bi, t in hv.calls() if (ir.callee_name(t["fn"]) or "").endswith("::try_from_be_slice")]
+                if ht:
+                    v, tgt = hv, ht
+                    break
         where = "%s:%s" % (b["file"], b["line"])
         if len(tgt) != 1:
             rep.violation(short + "|must-pass-leading-zero", where, "expected exactly one call to try_from_be_slice (%d)" % len(tgt))
